@@ -7,7 +7,7 @@
 //! `_score` from the returned score, ties by segment then document ordinal).
 //! Correspondence: ids in order and scores (rel 2e-5) against the Lean model
 //! (`SL.Sort.search` over keys built by `SL.Sort.buildKey`, scores from `SL.Bm25`).
-use super::c09::{analysed_segments, build_index, gen_doc, has_hook, repeated_term, schema_json, split_query, Ranking, TEXT_FIELDS};
+use super::c09::{analysed_segments, build_index, gen_blocky, gen_doc, has_hook, model_ranking, repeated_term, same_ranking, schema_json, split_query, Ranking, TEXT_FIELDS};
 use crate::idx;
 use crate::proto::Driver;
 use crate::rng::Rng;
@@ -218,12 +218,21 @@ impl Prop for C10 {
     "C10"
   }
   fn rule(&self) -> &'static str {
-    "case = (1-4 segments of 4-40 random documents with missing / single / multi-valued keyword (tag, cat), i64 (n, m) and f64 (p) fast fields, optional deletes, a scored query (match_all, term/bool/dis_max/query_string with boosts, function_score, script_score, rank_feature), a sort plan of 0-3 keys over _score/tag/cat/n/m/p with asc/desc/default order, limit 1..30, execution strategy); every case is run with its limit and with a limit covering all matches; non-trivial = at least 3 matches and (a field key with a missing or multi-valued value among the matches, or a tie on the first key, or a pure score sort with >= 3 distinct scores); distinct = distinct case JSON"
+    "case = (1-4 segments of 4-40 random documents with missing / single / multi-valued keyword (tag, cat), i64 (n, m) and f64 (p) fast fields, optional deletes, a scored query (match_all, term/bool/dis_max/query_string with boosts, function_score, script_score, rank_feature), a sort plan of 0-3 keys over _score/tag/cat/n/m/p with asc/desc/default order, limit 1..30, execution strategy); every eighth case is a 'ties' corpus (copies of 2-3 template documents, limit 1-4, mostly the default score sort), every eighth a 'blocky' corpus (posting list of 40-700 entries with tf spikes at block boundaries, default score sort, bmw/wand/bm25 with default or explicit block size, limit 1-3); every case is run with its limit and with a limit covering all matches; non-trivial = at least 3 matches and (a field key with a missing or multi-valued value among the matches, or a tie on the first key, or a pure score sort with >= 3 distinct scores); distinct = distinct case JSON"
   }
   fn count(&self, tier: Tier) -> usize {
     tier.pick(400, 20000)
   }
-  fn gen(&self, rng: &mut Rng, _tier: Tier, _i: usize) -> Value {
+  fn gen(&self, rng: &mut Rng, _tier: Tier, i: usize) -> Value {
+    if i % 8 == 1 {
+      // long posting lists with tf spikes at block boundaries, default score sort, any strategy
+      let mut c = gen_blocky(rng, i);
+      c["class"] = json!("blocky");
+      c["sort"] = if rng.chance(1, 2) { json!([]) } else { json!([{"field": "_score", "order": "desc"}]) };
+      c["execution"] = json!(*rng.pick(&["bmw", "bmw", "wand", "bm25"]));
+      return c;
+    }
+    let ties = i % 8 == 0;
     let nseg = 1 + rng.below(4);
     let vocab = 3 + rng.below(4);
     let mut segments = Vec::new();
@@ -231,10 +240,18 @@ impl Prop for C10 {
     for s in 0..nseg {
       let n = 4 + rng.below(37) / nseg.max(1) * 2;
       let mut docs = Vec::new();
+      // "ties": copies of a few templates, i.e. many documents with exactly equal scores and keys
+      let templates: Vec<Value> = if ties { (0..2 + rng.below(2)).map(|_| gen_sort_doc(rng, String::new(), vocab)).collect() } else { Vec::new() };
       for d in 0..n {
         let id = format!("s{s}d{d:04}");
         ids.push(id.clone());
-        docs.push(gen_sort_doc(rng, id, vocab));
+        if ties {
+          let mut t = rng.pick(&templates).clone();
+          t["_id"] = json!(id);
+          docs.push(t);
+        } else {
+          docs.push(gen_sort_doc(rng, id, vocab));
+        }
       }
       segments.push(Value::Array(docs));
     }
@@ -248,7 +265,7 @@ impl Prop for C10 {
       }
     }
     let (query, kind) = gen_query(rng, vocab);
-    let nkeys = *rng.pick(&[0, 1, 1, 2, 2, 3]);
+    let nkeys = if ties { *rng.pick(&[0, 0, 1]) } else { *rng.pick(&[0, 1, 1, 2, 2, 3]) };
     let mut fields: Vec<&str> = SORT_FIELDS.to_vec();
     rng.shuffle(&mut fields);
     let sort: Vec<Value> = fields[..nkeys]
@@ -259,12 +276,14 @@ impl Prop for C10 {
         _ => json!({"field": f}),
       })
       .collect();
-    let limit = 1 + rng.below(30);
+    let limit = if ties { 1 + rng.below(4) } else { 1 + rng.below(30) };
     let plan = resolve_plan(&sort);
     let fast = plan.len() == 1 && plan[0].0 == "_score" && plan[0].1;
-    // the default score sort prunes; C09 owns pruning, so it is run exhaustively here
-    let execution = if fast { "bm25" } else { *rng.pick(&["bm25", "wand", "bmw"]) };
-    json!({"kind": kind, "segments": segments, "deletes": deletes, "query": query, "sort": sort, "limit": limit, "execution": execution})
+    // the default score sort prunes.  Queries with a score hook are run exhaustively on that path
+    // (pruning under a hook is C09's open finding); hook-free queries use any strategy
+    let hook_free = matches!(kind, "plain" | "single_term" | "match_all");
+    let execution = if fast && !hook_free { "bm25" } else if fast && ties { *rng.pick(&["bm25", "bm25", "wand", "bmw"]) } else { *rng.pick(&["bm25", "wand", "bmw"]) };
+    json!({"class": if ties { "ties" } else { "random" }, "kind": kind, "segments": segments, "deletes": deletes, "query": query, "sort": sort, "limit": limit, "execution": execution})
   }
 
   fn run_case(&self, drv: &mut Driver, case: &Value, s: &mut Summary) {
@@ -300,7 +319,13 @@ impl Prop for C10 {
         table.insert(d["_id"].as_str().unwrap_or("").to_string(), (d, si, di));
       }
     }
-    let mk = |lim: usize| json!({"query": repo_q, "limit": lim, "sort": sort, "execution": case["execution"], "return_stored": false});
+    let mk = |lim: usize| {
+      let mut r = json!({"query": repo_q, "limit": lim, "sort": sort, "execution": case["execution"], "return_stored": false});
+      if case.get("bmw_block_size").map(|b| !b.is_null()).unwrap_or(false) {
+        r["bmw_block_size"] = case["bmw_block_size"].clone();
+      }
+      r
+    };
     let (page, all) = match (idx::search(&reader, &mk(limit)), idx::search(&reader, &mk(total_docs + 5))) {
       (idx::Outcome::Ok(a), idx::Outcome::Ok(b)) => (hits_of(&a), hits_of(&b)),
       (a, b) => {
@@ -310,6 +335,7 @@ impl Prop for C10 {
       }
     };
     s.count(&format!("kind.{}", case["kind"].as_str().unwrap_or("?")));
+    s.count(&format!("class.{}", case["class"].as_str().unwrap_or("random")));
     s.count(&format!("keys.{}", sort.len()));
     s.count(&format!("segments.{}", segments.len()));
     for (f, d) in &plan {
@@ -345,8 +371,32 @@ impl Prop for C10 {
     // ---- finder (a): the page is the prefix of all matches
     let want: Vec<&String> = all.iter().take(limit).map(|h| &h.0).collect();
     let got: Vec<&String> = page.iter().map(|h| &h.0).collect();
+    let fast = plan.len() == 1 && plan[0].0 == "_score" && plan[0].1;
+    let execution = case["execution"].as_str().unwrap_or("bm25");
+    let hook = has_hook(&case["query"]);
+    // on the score fast path the page is produced by the pruning executor: ask the mechanism
+    // model of C09 (`SL.TK.search`) for the page of this strategy
+    let schema = idx::schema(&schema_json()).unwrap();
+    let analysed = analysed_segments(&schema, &segments, &deletes);
+    let tk = if fast {
+      match &analysed {
+        Ok(segs) => drv.call("C09", json!({"op": "search", "k1": 1.2, "b": 0.75, "text_fields": TEXT_FIELDS, "segments": segs, "query": model_q, "limit": limit, "bmw_block_size": case.get("bmw_block_size").cloned().unwrap_or(Value::Null)})),
+        Err(e) => json!({"ok": false, "error": e}),
+      }
+    } else {
+      Value::Null
+    };
+    if fast {
+      s.count(&format!("fast_path.{execution}"));
+    }
     if want != got {
-      s.fail("sort.prefix", "the hits of the request are not the limit-prefix of all matches in the same order", case, json!({"page": got, "all_prefix": want}));
+      let obs = json!({"page": got, "all_prefix": want, "execution": execution});
+      let explained = fast && execution == "bmw" && !hook && tk["ok"] == json!(true) && same_ranking(&model_ranking(&tk["bmw"]), &page, limit, 2e-5);
+      if explained {
+        s.fail("bmw.block-bound", "execution=bmw on the default score sort returns a page that is not the limit-prefix of all matches, exactly as the recorded block-bound defect of C09 predicts (TermState::block_upper_bound = maximum of the block the cursor is in)", case, obs);
+      } else {
+        s.fail("sort.prefix", "the hits of the request are not the limit-prefix of all matches in the same order", case, obs);
+      }
     }
     // ---- finder (b): all matches are ordered by the statement's comparator
     for i in 1..rows.len() {
@@ -391,8 +441,9 @@ impl Prop for C10 {
       }
     }
     // ---- finder (d): a single term query scores every hit with BM25 of the statement:
-    // idf(N_live, df) * tf*(k1+1) / (tf + k1*(1-b+b*len/avgdl)) * boost, per segment
-    if case["kind"] == json!("single_term") && plan.iter().any(|(f, _)| f == "_score") {
+    // idf(N_live, df) * tf*(k1+1) / (tf + k1*(1-b+b*len/avgdl)) * boost, per segment — under
+    // every sort plan (hits carry their score also under a field sort since /repo 8218789)
+    if case["kind"] == json!("single_term") {
       let q = &case["query"];
       let w = q["value"].as_str().unwrap_or("");
       let boost = q["boost"].as_f64().unwrap_or(1.0);
@@ -421,8 +472,7 @@ impl Prop for C10 {
     }
 
     // ---- correspondence
-    let schema = idx::schema(&schema_json()).unwrap();
-    let model = match analysed_segments(&schema, &segments, &deletes) {
+    let model = match analysed.clone() {
       Ok(segs) => drv.call(
         "C10",
         json!({"op": "search", "k1": 1.2, "b": 0.75, "text_fields": TEXT_FIELDS, "segments": segs, "query": model_q, "sort": sort, "kinds": kinds(), "limit": limit}),
@@ -439,7 +489,6 @@ impl Prop for C10 {
     let mpage: Vec<String> = model["hits"].as_array().map(|a| a.iter().map(|h| h["id"].as_str().unwrap_or("?").to_string()).collect()).unwrap_or_default();
     let mh: Ranking = model["all"].as_array().map(|a| a.iter().map(|h| (h["id"].as_str().unwrap_or("?").to_string(), h["score"].as_f64().unwrap_or(f64::NAN))).collect()).unwrap_or_default();
     let uses_score = plan.iter().any(|(f, _)| f == "_score");
-    let hook = has_hook(&case["query"]);
     let mut ok = mh.len() == all.len();
     if ok {
       for i in 0..mh.len() {
@@ -450,8 +499,12 @@ impl Prop for C10 {
         if mh[i].0 != all[i].0 {
           // a swap is only acceptable between hits whose scores are equal within tolerance and
           // only when the score takes part in the order
+          // … and not when the tie is exact on both sides: exact ties are resolved by segment
+          // and document order, deterministically
           let other = all.iter().find(|h| h.0 == mh[i].0).map(|h| h.1);
-          if !(uses_score && other.map(|o| idx::close(o, all[i].1, 2e-5)).unwrap_or(false)) {
+          let mother = mh.iter().find(|h| h.0 == all[i].0).map(|h| h.1);
+          let exact_both = other == Some(all[i].1) && mother == Some(mh[i].1);
+          if exact_both || !(uses_score && other.map(|o| idx::close(o, all[i].1, 2e-5)).unwrap_or(false)) {
             ok = false;
             break;
           }
@@ -466,6 +519,18 @@ impl Prop for C10 {
     }
     if repeated_term(&case["query"]) {
       s.count("term_scored_by_two_clauses");
+    }
+    // fast path: the page of the request against the mechanism model of the chosen strategy
+    if fast && !hook {
+      if tk["ok"] != json!(true) {
+        s.disagree("model.error", case, json!(null), tk.clone());
+      } else if tk["negative"] != json!(true) {
+        let mr = model_ranking(&tk[execution]);
+        let knife = (execution == "wand" && tk["knife_wand"] == json!(true)) || (execution == "bmw" && tk["knife_bmw"] == json!(true));
+        if !same_ranking(&mr, &page, limit, 2e-5) && !knife {
+          s.disagree(&format!("fastpath.page.{execution}"), case, json!(page.iter().map(|h| json!([h.0, h.1])).collect::<Vec<_>>()), json!(mr.iter().map(|h| json!([h.0, h.1])).collect::<Vec<_>>()));
+        }
+      }
     }
     // the model's page for the request's own limit (bounded heap / per-segment top-k + merge)
     let mall_prefix: Vec<String> = mh.iter().take(limit).map(|h| h.0.clone()).collect();
